@@ -22,6 +22,9 @@ pub struct Cfg {
     pub interleave: u8,
     pub inband_fti: bool,
     pub count: u32,
+    /// the content encoding is signalled the other way round than the FTI (EXT_CENC iff the FTI is NOT in-band)
+    #[serde(default)]
+    pub split_sig: bool,
 }
 
 impl Cfg {
@@ -46,7 +49,7 @@ impl Cfg {
         let mut o = ObjSpec::simple(self.len(), 3);
         o.oti = Some(oti);
         o.count = self.count;
-        o.inband_cenc = self.inband_fti;
+        o.inband_cenc = self.inband_fti != self.split_sig;
         // half of the sessions without Content-MD5 (the receiver then has no second line of defence)
         o.md5 = (self.shape as u32 + self.interleave as u32 + self.k as u32) % 2 == 0;
         let mut s = SessSpec::basic(OtiSpec::new(Scheme::NoCode, 1424, 64, 0, true));
@@ -424,7 +427,10 @@ fn configs(thorough: bool) -> Vec<Cfg> {
                             if n > nmax {
                                 continue;
                             }
-                            v.push(Cfg { scheme, k, parity, shape, interleave, inband_fti, count });
+                            v.push(Cfg { scheme, k, parity, shape, interleave, inband_fti, count, split_sig: false });
+                            if count == 1 && interleave <= 2 && shape <= 1 {
+                                v.push(Cfg { scheme, k, parity, shape, interleave, inband_fti, count, split_sig: true });
+                            }
                         }
                     }
                 }
@@ -444,7 +450,7 @@ fn configs(thorough: bool) -> Vec<Cfg> {
             }
             for interleave in [1u8, 3] {
                 for inband_fti in [true, false] {
-                    v.push(Cfg { scheme, k, parity, shape, interleave, inband_fti, count: 1 });
+                    v.push(Cfg { scheme, k, parity, shape, interleave, inband_fti, count: 1, split_sig: interleave == 3 });
                 }
             }
         }
@@ -454,7 +460,7 @@ fn configs(thorough: bool) -> Vec<Cfg> {
         if !thorough && !(scheme == Scheme::Rs28Us && parity == 6) && scheme != Scheme::Rs28 {
             continue;
         }
-        v.push(Cfg { scheme, k, parity, shape: 6, interleave: 1, inband_fti: k % 2 == 0, count: 1 });
+        v.push(Cfg { scheme, k, parity, shape: 6, interleave: 1, inband_fti: k % 2 == 0, count: 1, split_sig: false });
     }
     v
 }
